@@ -623,6 +623,16 @@ CLAIMED["C13"]["text"] += (" Round 9 (gapi, vlib/queryfix.py): 'without disturbi
 CLAIMED["C18"]["text"] += (" Round 9 (gapi, vlib/c18foreign.py): foreign-but-valid PEAK placements (behind the audio, with unknown chunks around) x SFM_RDWR sessions x close -> re-open: PEAK still present, GET == chunk == true maxima and first positions, CALC == samples; "
                            "lean/SfProps/C18PeakLoc.lean: close keeps exactly one PEAK chunk for both locations, a tailer without the PEAK clause loses a chunk behind the audio.")
 
+CLAIMED["C09"]["text"] += (" Round 9 (fix9b): KF-C09-CALC-SIGNAL-MAX-RET0 REPAIRED (sf_command returns psf->error behind psf_calc_signal_max): Sf.Command.calcSignalMax models the refusal arms, "
+                            "calc_signal_max_refusal_convention / calc_signal_max_refusal_holds / calc_signal_max_success_clean hold at full strength for SFC_CALC_[NORM_]SIGNAL_MAX on every handle that cannot scan; "
+                            "calc_signal_max_old_rule / calc_signal_max_refusal_old_rule keep the rule before the repair (supersedes calc_signal_max_refusal_full_fails / _partial); no class is waived in the failure-value table; both witnesses are regressions.")
+CLAIMED["C17"]["text"] += (" Round 9 (fix9b): the command model follows the repair of KF-C09-CALC-SIGNAL-MAX-RET0 -- SFC_CALC_[NORM_]SIGNAL_MAX on a handle that cannot seek / cannot read returns the recorded error number "
+                            "(lean/SfProps/C17Routes.lean calc_signal_max_route_guards; the exhaustive grid compares the return value on write-only handles and pipes).")
+
+CLAIMED["C04"]["text"] += (" Round 9 (fix9b): KF-CAF-DATA-MINUS-ONE REPAIRED (caf_read_header resolves a 'data' chunk size of -1 = to the end of the file where the chunk header is read): Sf.Caf.negSize / dataCase, "
+                            "lean/SfProps/C04CafDataEnd.lean caf_data_to_end_walk (EVERY file: the walk in front of 'data' -1 ends with the audio = every byte behind the edit count), caf_data_to_end_reopens, "
+                            "negative_size_still_ends_walk; the rule before the repair Sf.Caf.walkOld / parseOld: caf_data_to_end_walk_old_rule, caf_data_size_minus_one_old_rule. vlib/cafw64.py parser variants: -1 with trailing bytes, "
+                            "file ending in / behind the edit count, -2, -1 on 'free'.")
 
 def main():
     checks = []
